@@ -116,6 +116,7 @@ func authCallCode(authority common.Address, v byte, r, s *big.Int, commit [32]by
 // F-C12-c: AUTHCALL is not flagged `writes` and evm.AuthCall has no read-only guard: executed
 // below a STATICCALL it bumps the authority's nonce and moves value from the transaction origin.
 func TestProbeAuthCallInsideStaticCall(t *testing.T) {
+	skipIfExec(t)
 	evmh.Boot()
 	st := evmh.NewState()
 	st.AddBalance(evmh.Origin, big.NewInt(1_000_000))
